@@ -1,6 +1,7 @@
 package main
 
 import (
+	"bytes"
 	"runtime"
 	"context"
 	"errors"
@@ -104,6 +105,9 @@ func routeScenario(v6 bool, xids, ths []byte, evs [][]byte) []callOutcome {
 				m := &dhcpv6.Message{MessageType: dhcpv6.MessageTypeReply, TransactionID: dhcpv6.TransactionID{0, 0, x}}
 				m.AddOption(&dhcpv6.OptionGeneric{OptionCode: 4000, OptionData: []byte{p}})
 				m.AddOption(dhcpv6.OptServerID(&dhcpv6.DUIDLL{HWType: 1, LinkLayerAddr: net.HardwareAddr{2, 0, 0, 0, 0, 9}})) // a realistic length
+				if int(p+3*x)%5 == 0 {
+					m.AddOption(&dhcpv6.OptionGeneric{OptionCode: 4001, OptionData: bytes.Repeat([]byte{p, x}, 150+50*int((p+x)%9))})
+				}
 				b = m.ToBytes()
 				switch kind {
 				case 1:
@@ -137,6 +141,11 @@ func routeScenario(v6 bool, xids, ths []byte, evs [][]byte) []callOutcome {
 				m, _ := dhcpv4.New(dhcpv4.WithTransactionID(dhcpv4.TransactionID{0, 0, 0, x}), dhcpv4.WithHwAddr(hw),
 					dhcpv4.WithMessageType(dhcpv4.MessageTypeOffer), dhcpv4.WithGeneric(dhcpv4.GenericOptionCode(224), []byte{p}))
 				m.OpCode = op
+				if int(p+3*x)%5 == 0 {
+					// a long reply (routes, vendor options, PXE menus): 600 .. 1400 octets, still within what the client
+					// said it accepts
+					m.UpdateOption(dhcpv4.OptGeneric(dhcpv4.GenericOptionCode(43), bytes.Repeat([]byte{p, x}, 150+50*int((p+x)%9))))
+				}
 				b = m.ToBytes()
 				if kind == 1 && int(p+x)%8 >= 4 {
 					// the client's own address is in the chaddr field, but the length octet says otherwise (0, 3, 7, 16):
